@@ -734,6 +734,23 @@ func refreshRing(r *ringDescriber) error {
 	prevHosts := r.session.ring.currentHosts()
 	seen := make(map[string]struct{}, len(hosts))
 
+	// hosts that are gone leave first: the selection policies identify a host by its
+	// address, so a node that took over the address of one that left (new host id, same
+	// address) would otherwise be taken for a duplicate when it is added and then be
+	// removed together with its predecessor
+	reported := make(map[string]struct{}, len(hosts))
+	for _, h := range hosts {
+		if !r.session.cfg.filterHost(h) {
+			reported[h.HostID()] = struct{}{}
+		}
+	}
+	for id, host := range prevHosts {
+		if _, ok := reported[id]; !ok {
+			r.session.removeHost(host)
+			delete(prevHosts, id)
+		}
+	}
+
 	for _, h := range hosts {
 		if r.session.cfg.filterHost(h) {
 			continue
